@@ -484,6 +484,44 @@ def check_leading_comments_emitted(run: Run) -> None:
                 run.violation("R02.10", em, q, f"return before {p0}.leading_comments", f"{q} can return its text on a path that never reads {p0}.leading_comments: the comments the reader attached to such a node are missing from the canonical text (content the author wrote is dropped)", line=rn.lineno)
 
 
+def _frontmatter_markers(run: Run) -> None:
+    """R02.13: reader and writer agree on what delimits the frontmatter"""
+    run.rule("R02.13", "the frontmatter ends where the emitter would end it: every line _strip_yaml_frontmatter accepts as a delimiter is a delimiter emit() writes around raw_frontmatter (`---`); any other closing marker (`...`, `+++`) can occur as an ordinary line inside the YAML text, which would then be cut short and its rest read as document body", 1)
+    pm = run.project.mod("core.parser")
+    em = run.project.mod("core.emitter")
+    fi = pm.func("_strip_yaml_frontmatter")
+    markers: set[str] = set()
+    sites = []
+    for c in walk_no_nested(fi.node):
+        if isinstance(c, ast.Compare) and len(c.ops) == 1 and isinstance(c.ops[0], (ast.Eq, ast.NotEq, ast.In, ast.NotIn)) and "lines[" in ast.unparse(c.left):
+            v = run.project.try_fold(pm, c.comparators[0])
+            vals = [v] if isinstance(v, str) else (list(v) if isinstance(v, (tuple, list, set, frozenset)) else None)
+            if vals is None or not all(isinstance(x, str) for x in vals):
+                raise AnalysisError(f"_strip_yaml_frontmatter: the marker set in `{ast.unparse(c)[:60]}` does not fold to constants")
+            markers |= set(vals)
+            sites.append(c)
+        if isinstance(c, ast.Call) and isinstance(c.func, ast.Attribute) and c.func.attr in ("startswith", "endswith") and "lines[" in ast.unparse(c.func.value) and c.args:
+            v = run.project.try_fold(pm, c.args[0])
+            if isinstance(v, str):
+                markers.add(v + "<prefix>")
+                sites.append(c)
+    if not sites:
+        raise AnalysisError("_strip_yaml_frontmatter: no delimiter comparison on lines[...] found")
+    efi = em.func("emit")
+    written = set()
+    for c in walk_no_nested(efi.node):
+        if isinstance(c, ast.Call) and isinstance(c.func, ast.Attribute) and c.func.attr == "append" and c.args:
+            v = run.project.try_fold(em, c.args[0])
+            if isinstance(v, str) and v.strip() and set(v.strip()) <= set("-.+~=") and len(v.strip()) == 3:
+                written.add(v.strip())
+    if not written:
+        raise AnalysisError("emit(): the frontmatter delimiter lines are not found")
+    extra = sorted(markers - written)
+    run.instance("R02.13", pm.loc(fi.node), f"_strip_yaml_frontmatter accepts {sorted(markers)}; emit() writes {sorted(written)}", ok=not extra)
+    if extra:
+        run.violation("R02.13", pm, fi.qualname, f"frontmatter delimiters {sorted(markers)}", f"the reader ends the frontmatter at {extra}, which the emitter never writes as a delimiter: a frontmatter whose YAML text contains such a line (an indented `...` in a block scalar) is cut short, the rest is read as document content (other keys, envelope INFERRED) and written back that way")
+
+
 def check(run: Run) -> None:
     tt = enum_members(run.project, "core.lexer", "TokenType")
     pmodel = ParserModel(run.project, tt)
@@ -498,6 +536,7 @@ def check(run: Run) -> None:
     c04.check_number_spelling(run, "R02.11")
     from . import c01 as _c01
 
+    _frontmatter_markers(run)
     _c01.check_indent(run, "R02.12")  # which parent a field belongs to is carried by indentation alone
     check_child_loops(run)
     from . import c05
